@@ -93,6 +93,13 @@ func zzvC01Configs(thorough bool) []zzvC01Cfg {
 		cfg := &telemetry.UploadConfig{GOOS: []string{"linux"}, GOARCH: []string{"amd64"}, GoVersion: []string{"go1.21.0"}, SampleRate: 1, Programs: []*telemetry.ProgramConfig{pc}}
 		out = append(out, zzvC01Cfg{fmt.Sprintf("progs=P1 repeated listings with rates %v then %v", rr[0], rr[1]), cfg})
 	}
+	// Bucket lists that are empty or have an empty element: they add no counter (in particular not "c:").
+	{
+		pc := &telemetry.ProgramConfig{Name: "example.com/p1", Versions: []string{"v1.0.0", "v2.0.0"},
+			Counters: []telemetry.CounterConfig{{Name: "c:{}", Rate: 1}, {Name: "d:{a,}", Rate: 1}}}
+		cfg := &telemetry.UploadConfig{GOOS: []string{"linux"}, GOARCH: []string{"amd64"}, GoVersion: []string{"go1.21.0"}, SampleRate: 1, Programs: []*telemetry.ProgramConfig{pc}}
+		out = append(out, zzvC01Cfg{"progs=P1 counters c:{} and d:{a,} (empty bucket list / empty element)", cfg})
+	}
 	// A program listed in two entries: a stack named c (rate 1) in one, the counter c (rate 0.125) in the other.
 	// Each kind keeps its own rate, whichever entry comes first.
 	for _, stackFirst := range []bool{true, false} {
@@ -110,7 +117,7 @@ func zzvC01Configs(thorough bool) []zzvC01Cfg {
 
 // zzvC01Names is the counter-name alphabet: approved names, prefixes,
 // suffixes, near-misses, literal braces, stack heads equal to plain names.
-var zzvC01Names = []string{"c", "c:a", "c:b", "c:c", "c:{a,b}", "c:a,b", "c:", "cc", "c:ab", "d:a", "d:b", "s", "s\nF", "s2\nF", "sx\nF", "c:a\nF", "\nF", "c\nF", "s\nF\nG",
+var zzvC01Names = []string{"d:", "c", "c:a", "c:b", "c:c", "c:{a,b}", "c:a,b", "c:", "cc", "c:ab", "d:a", "d:b", "s", "s\nF", "s2\nF", "sx\nF", "c:a\nF", "\nF", "c\nF", "s\nF\nG",
 	// names that look like abbreviated frame lines of an approved name
 	"\".s\nF", "x.s\nF"}
 
